@@ -317,6 +317,60 @@ example : ([4, 2, 1] : List Rat).map (fun x => 4 / x) = [1, 2, 4] ∧ ([1, 2, 4]
 
 end concrete
 
+/-! ### Convolving a package again -/
+
+section directory
+variable {C : Type}
+
+/-- **C07 (re-convolution refused).** With `overwrite=False`, if the first file to be written already
+    exists the run stops with `fileExists` and the directory is exactly what it was. -/
+theorem C07_reconvolve_refused (n : String) (c : C) (rest : List (String × C)) (dir : Dir C)
+    (h : (dir n).isSome = true) :
+    writeFiles false ((n, c) :: rest) dir = (dir, some MErr.fileExists) := by
+  simp [writeFiles, h]
+
+/-- **C07 (re-convolution with overwrite).** With `overwrite=True` the run never refuses; afterwards
+    every filter's file holds the newly computed content (that of the revised package), and every
+    other file of the directory is untouched. -/
+theorem C07_reconvolve_overwrite : ∀ (new : List (String × C)) (dir : Dir C), (new.map (·.1)).Nodup →
+    (writeFiles true new dir).2 = none ∧
+    (∀ nc ∈ new, (writeFiles true new dir).1 nc.1 = some nc.2) ∧
+    (∀ m, m ∉ new.map (·.1) → (writeFiles true new dir).1 m = dir m)
+  | [], dir, _ => by simp [writeFiles]
+  | (n, c) :: rest, dir, hnd => by
+    simp only [List.map_cons, List.nodup_cons] at hnd
+    obtain ⟨h1, h2, h3⟩ := C07_reconvolve_overwrite rest (putFile n c dir) hnd.2
+    have hw : writeFiles true ((n, c) :: rest) dir = writeFiles true rest (putFile n c dir) := by
+      simp [writeFiles]
+    rw [hw]
+    refine ⟨h1, ?_, ?_⟩
+    · intro nc hnc
+      rcases List.mem_cons.mp hnc with rfl | hmem
+      · rw [h3 n hnd.1]; simp [putFile]
+      · exact h2 nc hmem
+    · intro m hm
+      simp only [List.map_cons, List.mem_cons, not_or] at hm
+      rw [h3 m hm.2]
+      simp [putFile, hm.1]
+
+/-- **C07 (first convolution).** Into a directory that holds none of the files, `overwrite=False` and
+    `overwrite=True` do the same. -/
+theorem C07_first_convolution : ∀ (new : List (String × C)) (dir : Dir C), (new.map (·.1)).Nodup →
+    (∀ nc ∈ new, dir nc.1 = none) → writeFiles false new dir = writeFiles true new dir
+  | [], _, _, _ => rfl
+  | (n, c) :: rest, dir, hnd, hfree => by
+    simp only [List.map_cons, List.nodup_cons] at hnd
+    have hn : dir n = none := hfree (n, c) (by simp)
+    have ih := C07_first_convolution rest (putFile n c dir) hnd.2 (fun nc hnc => by
+      have hne : nc.1 ≠ n := fun e => hnd.1 (e ▸ List.mem_map.mpr ⟨nc, hnc, rfl⟩)
+      simp [putFile, hne, hfree nc (by simp [hnc])])
+    simp [writeFiles, hn, ih]
+
+-- a directory holding F0; convolving F0 and F1 again: refused without overwrite, both rewritten with it
+example : (putFile "F0" (1 : Nat) (fun _ => none) "F0").isSome = true ∧ (["F0", "F1"] : List String).Nodup := by decide
+
+end directory
+
 /-! ### Non-vacuity: concrete packages meet the hypotheses and exercise every step -/
 
 /-- three rows in directory-listing order (`a_m2 < b_m3 < c_m1` are the *file* names; the labels are
